@@ -27,7 +27,12 @@ Variants == { [v |-> "none", field |-> "ID", pos |-> "first"] } \cup
 \* DEFLATE stream that is never terminated / that continues with a reserved block type, garbage, another acceptable
 \* message, an over-limit stream).  Nothing below depends on it: the library keeps no state between calls.
 Befores == {"none", "unterminated", "badblock", "garbage", "otherok", "bomb"}
-Inputs == [kind : {"sso", "logout"}, rootsig : {"unsigned", "signed"}, var : Variants, deflate : BOOLEAN, before : Befores]
+\* rawview: the message is presented in a valid DEFLATE stream whose own octets, read as XML, begin with a complete
+\* root element of the same kind carrying other ID / InResponseTo / Destination / Version (a stored block with
+\* printable header octets).  Whether an input is taken raw or inflated is ONE decision, the same for the pre-decoders
+\* and for validation: such a stream is not a well-formed document, so both inflate it.
+Inputs == { x \in [kind : {"sso", "logout"}, rootsig : {"unsigned", "signed"}, var : Variants, deflate : BOOLEAN, before : Befores, rawview : BOOLEAN] :
+              x.rawview => (x.deflate /\ x.before = "none") }
 Cfgs   == [issuerCfg : BOOLEAN]
 
 \* which value the validated decode ends up with for the shadowed field
